@@ -520,6 +520,33 @@ fn c13_extract_never_coerces_between_kinds() {
     std::mem::forget((rb, ri, ru, rf, r32));
 }
 
+// untyped positions (heterogeneous arrays, free-form maps): the variant inferred at write time must be
+// the one the read-back visitor produces from the same stored bytes (CBOR major type 0 -> U64, major
+// type 1 -> I64), or "what validation accepts, storage returns unchanged" fails for that value. Added
+// after seeded change C13-7 (0 inferred as I64).
+// @check id=C13 tier=quick cap=600 role=untyped_integer_inference
+// @fns FieldValue::try_from, FieldValue::try_from_at, FieldValue::u64_from, FieldValue::i64_from
+// @bound CBOR Integer: every i64 and every u64 value (the whole range -2^63 .. 2^64-1), no declared type
+// @stubs alloc::fmt::format -> String::new()
+#[kani::proof]
+#[kani::unwind(2)]
+#[kani::stub(alloc::fmt::format, fmt_stub)]
+fn c13_untyped_integer_is_inferred_as_the_read_back_variant() {
+    let i = any_int();
+    let x = int_value(i);
+    let r = FieldValue::try_from(Cbor::Integer(i));
+    match &r {
+        Ok(FieldValue::U64(v)) => assert!(x >= 0 && *v as i128 == x, "a non-negative integer - zero included - is U64, exactly"),
+        Ok(FieldValue::I64(v)) => assert!(x < 0 && *v as i128 == x, "a negative integer is I64, exactly"),
+        Ok(_) => assert!(false, "an integer is inferred as an integer"),
+        Err(_) => assert!(false, "every CBOR integer in -2^63 .. 2^64-1 has an inferred value"),
+    }
+    kani::cover!(x == 0, "zero");
+    kani::cover!(x < 0, "negative");
+    kani::cover!(x > i64::MAX as i128, "above i64::MAX");
+    std::mem::forget(r);
+}
+
 // (consumes a Vec<Cbor>: the recursive drop glue of cbor2::Value is unfolded to the unwind bound; > 240 s)
 // @check id=C13 tier=thorough cap=600 role=extract_bytes_from_int_array
 // @fns FieldValue::bytes_from
@@ -542,6 +569,51 @@ fn c13_bytes_from_integer_array_checks_every_element() {
     kani::cover!(expect, "two bytes");
     std::mem::forget(r);
 }
+
+// ---- permitted schema upgrades keep old documents readable ------------------------------------------
+// "documents written under an older schema remain readable after every permitted upgrade": whenever
+// is_compatible_upgrade_of permits (new <- old), every value the old type accepted is accepted by the new
+// one. The oracle is the real validator itself (two runs), so it states the property, not a table.
+// Added after seeded change C13-8 (Option(T) -> T became a permitted upgrade).
+fn opt(t: FieldType) -> FieldType {
+    FieldType::Option(Box::new(t))
+}
+macro_rules! upgrade {
+    ($name:ident, $new:expr, $old:expr $(, permitted = $cover:literal)?) => {
+        #[kani::proof]
+        #[kani::unwind(2)]
+        #[kani::stub(alloc::fmt::format, fmt_stub)]
+        fn $name() {
+            let (new, old): (FieldType, FieldType) = ($new, $old);
+            let v = any_scalar();
+            let permitted = new.is_compatible_upgrade_of(&old);
+            let old_ok = old.validate_inner(&v).is_ok();
+            let new_ok = new.validate_inner(&v).is_ok();
+            if permitted && old_ok {
+                assert!(new_ok, "a permitted upgrade never turns a stored value that validated under the old type into an invalid one");
+            }
+            $(assert!(permitted, $cover);)?
+            kani::cover!(old_ok, "a value the old type accepted");
+            kani::cover!(!new_ok, "a value the new type refuses");
+            std::mem::forget((new, old, v));
+        }
+    };
+}
+// @check id=C13 tier=quick cap=300 role=permitted_upgrade_keeps_values_valid harness=c13_upgrade_i64_same,c13_upgrade_opt_i64_same,c13_upgrade_i64_from_opt_i64,c13_upgrade_opt_i64_from_i64,c13_upgrade_f32_same,c13_upgrade_opt_f32_from_opt_f32,c13_upgrade_f32_from_opt_f32,c13_upgrade_i64_from_u64,c13_upgrade_u64_from_i64,c13_upgrade_f64_from_f32,c13_upgrade_bool_from_opt_bool
+// @fns field::FieldType::is_compatible_upgrade_of, field::FieldType::validate_inner
+// @bound concrete (new, old) type pairs over I64 / U64 / F32 / F64 / Bool and their Option wrappers (identity, Option on both sides, Option dropped, Option added, neighbouring numeric kinds); value any scalar (Bool / I64 / U64 / F64 / F32 / Null, full-width payloads). Array / Map shapes and multi-step upgrade chains are not covered
+// @stubs alloc::fmt::format -> String::new()
+upgrade!(c13_upgrade_i64_same, FieldType::I64, FieldType::I64, permitted = "an unchanged type is a permitted upgrade");
+upgrade!(c13_upgrade_opt_i64_same, opt(FieldType::I64), opt(FieldType::I64), permitted = "an unchanged optional type is a permitted upgrade");
+upgrade!(c13_upgrade_i64_from_opt_i64, FieldType::I64, opt(FieldType::I64));
+upgrade!(c13_upgrade_opt_i64_from_i64, opt(FieldType::I64), FieldType::I64);
+upgrade!(c13_upgrade_f32_same, FieldType::F32, FieldType::F32, permitted = "an unchanged type is a permitted upgrade");
+upgrade!(c13_upgrade_opt_f32_from_opt_f32, opt(FieldType::F32), opt(FieldType::F32), permitted = "an unchanged optional type is a permitted upgrade");
+upgrade!(c13_upgrade_f32_from_opt_f32, FieldType::F32, opt(FieldType::F32));
+upgrade!(c13_upgrade_i64_from_u64, FieldType::I64, FieldType::U64);
+upgrade!(c13_upgrade_u64_from_i64, FieldType::U64, FieldType::I64);
+upgrade!(c13_upgrade_f64_from_f32, FieldType::F64, FieldType::F32);
+upgrade!(c13_upgrade_bool_from_opt_bool, FieldType::Bool, opt(FieldType::Bool));
 
 // @check id=C13 tier=thorough cap=600 expect=fail role=witness
 // @fns FieldType::validate_inner
